@@ -21,6 +21,10 @@ def mk_unit(spec):
     for p, n, e in spec:
         f = Unit._by_name[n]
         if p: f = (Prefix._by_name[p] if isinstance(p, str) else Prefix(p[0], p[1])) * f
+        if e != 1:
+            # the power is first asked for with a float exponent, which the library refuses: without consequence for the integer power
+            try: f ** float(e)
+            except Exception: pass  # noqa
         f = f ** e if e != 1 else f
         u = f if u is None else u * f
     return One if u is None else u
